@@ -158,6 +158,11 @@ def run_case(asm, acc, case):
         rng.shuffle(names)
         preseed = {'labels': {n: 2 * rng.randrange(0, 4000) for n in names}}     # label table re-used from an earlier build
         acc['ctr']['builds_with_reused_label_table'] += 2
+    elif case['idx'] % 9 == 4:
+        # a caller that never passes tables: an earlier build defined *constants* named like this program's labels
+        names = [it['name'] for it in items if it['k'] == 'label']
+        preseed = {'notables': True, 'earlier': ''.join('%s = %d\n' % (n, 4 * rng.randrange(1, 500)) for n in names) + 'nop\n'}
+        acc['ctr']['builds_without_tables_after_an_earlier_build'] += 2
     elif case['idx'] % 3 == 1:
         from ..gen import variants
         lines = variants.vary(rng, items, P.render(items))
